@@ -404,6 +404,19 @@ func main() {
 		if rng.IntN(3) == 0 {
 			ref.Digest = ociref.Digest(gram.GenDigest(rng))
 		}
+		if i%16 == 5 {
+			// every part at (or near) its own maximum at once, under a long host: the parts are limited
+			// one by one, the whole reference is not
+			labels := make([]string, 3+rng.IntN(12))
+			for k := range labels {
+				labels[k] = strings.Repeat(string(rune('a'+k%26)), 40+rng.IntN(24))
+			}
+			ref.Host = strings.Join(labels, ".") + []string{"", ":5000", ":65535"}[rng.IntN(3)]
+			ref.Repository = gram.GenRepoLen(rng, 255-rng.IntN(3))
+			ref.Tag = strings.Repeat("T", 128-rng.IntN(2))
+			ref.Digest = ociref.Digest("sha512:" + strings.Repeat("0123456789abcdef", 8))
+			run.Count("converse_all_parts_maximal", 1)
+		}
 		// only parts that are valid by the library's own predicates and limits count
 		if !ociref.IsValidHost(ref.Host) || !ociref.IsValidRepository(ref.Repository) || len(ref.Repository) > 255 ||
 			ref.Tag != "" && !ociref.IsValidTag(ref.Tag) || ref.Digest != "" && !ociref.IsValidDigest(string(ref.Digest)) {
@@ -423,6 +436,7 @@ func main() {
 	run.FloorCounter("parse_accepted", 1000)
 	run.FloorCounter("parse_rejected", 1000)
 	run.FloorCounter("converse", 1000)
+	run.FloorCounter("converse_all_parts_maximal", 20)
 	run.FloorCounter("router_strings", 1000)
 	run.FloorCounter("valid_tag", 100)
 	run.FloorCounter("valid_digest", 100)
